@@ -110,3 +110,12 @@ package keeper
 //@ loop 0: invariant forall i :: 0 <= i && i < #i && eligible(Other, members[i]) ==> (exists j :: 0 <= j && j < len(validMembers) && validMembers[j] == bech32addr(members[i].Address))
 //@ loop 0: invariant len(validMembers) <= #i
 //@ loop 1: invariant true
+
+// ---- C11: users cannot obtain signatures over module-internal content kinds ----------------------------------
+//@ func (k Keeper) CreateDirectSigningRequest
+//@ trusted
+//@ modifies Store_bandtss, Bank, Other
+//@ func (k msgServer) RequestSignature
+//@ modifies Store_bandtss, Bank, Other
+//@ ensures err == nil ==> !tsstypes.contentInternal(absfn("types.MsgRequestSignature.GetContent", req))
+//@ ensures tsstypes.contentInternal(absfn("types.MsgRequestSignature.GetContent", req)) ==> Store_bandtss == old(Store_bandtss) && Bank == old(Bank) && Other == old(Other)
